@@ -955,7 +955,9 @@ def check_blocks_skool(out, case):
             nowrap = '<nowrap>' in t
         if t in ('LIST#', 'TABLE#'):
             nowrap = False
-        if len(l) > 79 and not nowrap:
+        # a line holding one unbreakable word that cannot fit (e.g. a <wrapalign> continuation line
+        # indented to its cell's column) is the property's own exception
+        if len(l) > 79 and not nowrap and len(t.split()) > 1:
             fails.append(('skool-blocks-line-too-wide', 'line of %d chars: %r' % (len(l), l[:100])))
     return fails
 
